@@ -61,9 +61,13 @@ Definition dc_N (Z d1 d2 P : R) : R :=
 Definition dc_D (closed : bool) (N : R) : R := if closed then 1 / N else (1 / 2) / N.
 
 (* above the endurance value the calculator uses exactly the component Woehler curve *)
-Theorem dc_N_is_curve Z D d1 d2 P : D < P -> pram_calc_N Z D d1 d2 P = Finite (dc_N Z d1 d2 P).
+Theorem dc_N_is_curve Z D d1 d2 P : 0 < Z -> D < P -> pram_calc_N Z D d1 d2 P = Finite (dc_N Z d1 d2 P).
 Proof.
-  intros HP. unfold pram_calc_N, dc_N. cbv zeta. destruct (Rlt_dec D P); [|contradiction]. destruct (Rle_dec Z P); reflexivity.
+  intros HZ HP. unfold pram_calc_N, dc_N, pram_fatigue_strength_limit. cbv zeta.
+  repeat match goal with |- context [if ?c then _ else _] => destruct c end; try (exfalso; lra); try reflexivity.
+  (* only reachable if the two sources write the comparison at the knee P = P_RAM_Z differently: both branches give 1e3 there *)
+  all: assert (E : P = Z) by lra; rewrite E; replace (Z / Z) with 1 by (field; lra);
+       unfold npow; destruct (Req_EM_T 1 0); [lra|]; rewrite !Rpower_base1; reflexivity.
 Qed.
 
 (* a half (open) hysteresis counts half *)
